@@ -55,10 +55,14 @@ def main(pid="C11", prop="mirror"):
     c = vf.Check(pid, "model_checking")
     vf.build("hooks")
     mcfg = os.path.join(c.workdir, "model.cfg")
-    names, versions, maxsyms = (["fn1", "fn2"], ["V1", "V2"], 3) if c.thorough else (["fn1", "fn2"], ["V1"], 3)
-    open(mcfg, "w").write('CONSTANTS Names = {%s}\n Versions = {%s}\n MaxSyms = %d\nSPECIFICATION Spec\nINVARIANTS MirrorOrKnown SetDifferenceOrKnown SelfDiffEmpty ExitLattice\nCHECK_DEADLOCK FALSE\n' %
-                          (",".join('"%s"' % n for n in names), ",".join('"%s"' % v for v in versions), maxsyms))
-    c.model("CorpusDiff.tla", mcfg, heap="8g")
+    # universes of the model run (each exhaustive): two names under one version with up to 3 symbols; one name under two versions; thorough adds two names
+    # under two versions with up to 2 symbols per corpus (3 would be ~10^6 pairs of corpora)
+    universes = [(["fn1", "fn2"], ["V1"], 3), (["fn1"], ["V1", "V2"], 3 if c.thorough else 2)] + ([(["fn1", "fn2"], ["V1", "V2"], 2)] if c.thorough else [])
+    for k, (names, versions, maxsyms) in enumerate(universes):
+        mcfg = os.path.join(c.workdir, "model%d.cfg" % k)
+        open(mcfg, "w").write('CONSTANTS Names = {%s}\n Versions = {%s}\n MaxSyms = %d\nSPECIFICATION Spec\nINVARIANTS MirrorOrKnown SetDifferenceOrKnown SelfDiffEmpty ExitLattice\nCHECK_DEADLOCK FALSE\n' %
+                              (",".join('"%s"' % n for n in names), ",".join('"%s"' % v for v in versions), maxsyms))
+        c.model("CorpusDiff.tla", mcfg, heap="8g", workers=8)
     strict = vf.tlc_check("CorpusDiff.tla", "CorpusDiffStrict.cfg")
     c.cov["strict_mirror_holds_in_model"] = strict["ok"]      # expected False: the model itself exhibits the listed deviation
     gn, gv, gm = (["fn1", "fn2"], ["V1", "V2"], 2) if c.thorough else (["fn1", "fn2"], ["V1"], 2)
